@@ -248,6 +248,27 @@ Fixpoint spawned_e (fuel : nat) (e : entry) (marker : bytes) (upload_var : bool)
          end) marker (r_effects r)
   end.
 
+(* ------------------------------------------------------ which directory *)
+
+(* telemetry.Default is Config.TelemetryDir when the configuration names one,
+   else the directory below os.UserConfigDir() found at init time, else - no
+   user configuration directory - the zero Dir, whose Mode() is "off" whatever
+   files exist anywhere: `dir_known` is the first two cases.  `mode` is what
+   Dir.Mode reads from the directory when there is one. *)
+Definition dir_known (cfg_names_dir user_config_dir : bool) : bool := cfg_names_dir || user_config_dir.
+
+Definition effective_mode (known : bool) (mode : bytes) : bytes := if known then mode else lit_off.
+
+Definition program_run_env (e : entry) (cfg_names_dir user_config_dir : bool) (marker : bytes) (upload_var : bool)
+           (c : cfg) (mode : bytes) (localdir_ok : bool) (period now : Z) (tok : option Z) : result :=
+  program_run e marker upload_var c (effective_mode (dir_known cfg_names_dir user_config_dir) mode)
+              localdir_ok period now tok.
+
+Definition spawned_env (fuel : nat) (e : entry) (cfg_names_dir user_config_dir : bool) (marker : bytes)
+           (upload_var : bool) (c : cfg) (mode : bytes) (localdir_ok : bool) (period now : Z) (tok : option Z) : list proc :=
+  spawned_e fuel e marker upload_var c (effective_mode (dir_known cfg_names_dir user_config_dir) mode)
+            localdir_ok period now tok.
+
 Definition is_sidecar (p : proc) : bool := match p_kind p with KSidecar => true | _ => false end.
 
 (* ------------------------------------------------------ oracles *)
